@@ -13,6 +13,7 @@ CONSTANTS
   Orgs = {0}
   Fixed = TRUE
   ThrowErrors = TRUE
+  ThrowMaxPass = 3
   WithExtra = TRUE
   AllowIllFormed = FALSE
   Complete = FALSE
